@@ -140,8 +140,11 @@ SE2TangentBase<_Derived>::exp(OptJacobianRef J_m_t) const
   else
   {
     // Euler
+    // (1-cos)/theta written as 2 sin^2(theta/2)/theta: nothing cancels, so B and
+    // its derivative (autodiff scalars) stay accurate for small theta
+    const Scalar sin_half_theta = sin(theta / Scalar(2));
     A = sin_theta / theta;
-    B = (Scalar(1) - cos_theta) / theta;
+    B = Scalar(2) * sin_half_theta * sin_half_theta / theta;
   }
 
   if (J_m_t)
